@@ -210,6 +210,29 @@ func (c *Ctx) evalSpec(env *specEnv, n *SNode) (specVal, error) {
 		}
 		return specVal{c.Unbox(st, x.t, t), t}, nil
 	case "un":
+		if n.Text == "&" {
+			// address of a field reached through a pointer: &p.f
+			a := n.Args[0]
+			if a.Op != "sel" {
+				return specVal{}, fmt.Errorf("& is only supported on field selectors")
+			}
+			base, err := c.evalSpec(env, a.Args[0])
+			if err != nil {
+				return specVal{}, err
+			}
+			stT := deref(base.typ)
+			sty, ok := stT.Underlying().(*types.Struct)
+			if !ok {
+				return specVal{}, fmt.Errorf("&%s: not a struct field", a)
+			}
+			for i := 0; i < sty.NumFields(); i++ {
+				if sty.Field(i).Name() == a.Text {
+					l := &Loc{Kind: LocField, Base: base.t, Struct: stT, Field: i, Type: sty.Field(i).Type(), Root: sty.Field(i).Type()}
+					return specVal{c.LowerLoc(st, l), types.NewPointer(sty.Field(i).Type())}, nil
+				}
+			}
+			return specVal{}, fmt.Errorf("&%s: no such field", a)
+		}
 		if n.Text == "!" {
 			env.pol = -env.pol
 		}
@@ -789,6 +812,13 @@ func (c *Ctx) evalCall(env *specEnv, n *SNode) (specVal, error) {
 			return specVal{}, err
 		}
 		return specVal{Select(c.Arr(st, famChClosed, ArraySort(SInt, SBool)), x.t), tBool}, nil
+	case "waited":
+		// waited(wg): WaitGroup.Wait() on wg has returned on this path
+		x, err := argv(0)
+		if err != nil {
+			return specVal{}, err
+		}
+		return specVal{Select(c.Arr(st, "Waited", ArraySort(SInt, SBool)), x.t), tBool}, nil
 	case "tokens":
 		x, err := argv(0)
 		if err != nil {
@@ -811,6 +841,22 @@ func (c *Ctx) evalCall(env *specEnv, n *SNode) (specVal, error) {
 			r = T(SInt, "(sl_arr %s)", r.S)
 		}
 		return specVal{Select(c.Arr(st, famAlloc, ArraySort(SInt, SBool)), r), tBool}, nil
+	case "cancels":
+		// cancels(f, ctx): calling the cancel function f marks context ctx done
+		f, err := argv(0)
+		if err != nil {
+			return specVal{}, err
+		}
+		x, err := argv(1)
+		if err != nil {
+			return specVal{}, err
+		}
+		c.Reg.DeclFun("cancel_ctx", []Sort{SInt}, SInt)
+		return specVal{T(SBool, "(= (cancel_ctx %s) %s)", f.t.S, c.ctxID(st, x.t).S), tBool}, nil
+	case "nolocks":
+		// no annotated lock is held by the executing goroutine at this point (tracked per path)
+		h := c.Arr(st, famHeld, ArraySort(SInt, SBool))
+		return specVal{Eq(h, ConstArray(ArraySort(SInt, SBool), False)), tBool}, nil
 	case "callres":
 		// callres(Callee, siteOrdinal, k): the k-th result of that call on the current path
 		if len(n.Args) != 3 || n.Args[1].Op != "lit-int" || n.Args[2].Op != "lit-int" {
